@@ -154,6 +154,7 @@ func c16Run(ci interface{}, rec *Rec) {
 	if alt > 0 {
 		rec.Count("batches_with_interleaved_conflict_analysis", 1)
 		rec.Interesting(JS(c))
+		rec.Sample = map[string]interface{}{"batch": c, "alternations_between_solvers_at_conflict_analysis_steps": alt, "max_tasks_running_at_once": atomic.LoadInt32(&c16.maxRunning)}
 	}
 }
 
